@@ -559,6 +559,11 @@ func (l *lockedBuf) String() string {
 	defer l.mu.Unlock()
 	return l.b.String()
 }
+func (l *lockedBuf) length() int {
+	l.mu.Lock()
+	defer l.mu.Unlock()
+	return l.b.Len()
+}
 func (l *lockedBuf) contains(x string) bool {
 	l.mu.Lock()
 	defer l.mu.Unlock()
@@ -589,12 +594,22 @@ func runIsolated(c Case) result {
 	// a child whose runtime is wedged by the stopping pipeline (see the note on time.Ticker) never exits:
 	// once it has reported its pre-shutdown result it gets 6 more seconds, not the whole 25
 	var reportedAt time.Time
+	lastLen, lastGrowth := 0, time.Now()
 wait:
 	for {
 		select {
 		case <-exited:
 			break wait
 		case <-time.After(100 * time.Millisecond):
+			if n := out.length(); n != lastLen {
+				lastLen, lastGrowth = n, time.Now()
+			} else if time.Since(lastGrowth) > 12*time.Second {
+				// no event and no result for 12 s (the longest wait inside a case is 8 s): the child's runtime is
+				// wedged; what it streamed so far is all there will be
+				_ = cmd.Process.Kill()
+				<-exited
+				break wait
+			}
 			if reportedAt.IsZero() && out.contains("RESULT ") {
 				reportedAt = time.Now()
 			}
